@@ -167,7 +167,7 @@ Proof.
 Qed.
 
 Lemma ES_trailers_index a r x r2 res0 :
-  ES (fun f => rd_star f r) (x, TRB :: r2) ->
+  ES (fun f => rd_star f true r) (x, TRB :: r2) ->
   ES (fun f => rd_trailers f (ESub a (if is_starred x then ETuple [x] else x)) r2) res0 ->
   ES (fun f => rd_trailers f a (TLB :: r)) res0.
 Proof.
@@ -176,8 +176,8 @@ Proof.
 Qed.
 
 Lemma ES_trailers_index_tuple a r x r2 xs r3 res0 :
-  ES (fun f => rd_star f r) (x, TComma :: r2) ->
-  ES (fun f => rd_elts f CBracket r2) (xs, r3) ->
+  ES (fun f => rd_star f true r) (x, TComma :: r2) ->
+  ES (fun f => rd_elts f true CBracket r2) (xs, r3) ->
   ES (fun f => rd_trailers f (ESub a (ETuple (x :: xs))) r3) res0 ->
   ES (fun f => rd_trailers f a (TLB :: r)) res0.
 Proof.
@@ -198,7 +198,7 @@ Proof. exists 1. intros f Hf. destruct f; [lia|]. reflexivity. Qed.
 Definition is_rp (t : token) : bool := match t with TRP => true | _ => false end.
 
 Lemma ES_atom_paren t ts x r2 :
-  is_rp t = false -> ES (fun f => rd_star f (t :: ts)) (x, TRP :: r2) -> is_starred x = false ->
+  is_rp t = false -> ES (fun f => rd_star f false (t :: ts)) (x, TRP :: r2) -> is_starred x = false ->
   ES (fun f => rd_atom f (TLP :: t :: ts)) (x, r2).
 Proof.
   intros Ht [n1 H1] Hx. exists (S n1). intros f Hf. destruct f as [|f]; [lia|].
@@ -207,8 +207,8 @@ Proof.
 Qed.
 
 Lemma ES_atom_tuple t ts x r2 xs r3 :
-  is_rp t = false -> ES (fun f => rd_star f (t :: ts)) (x, TComma :: r2) ->
-  ES (fun f => rd_elts f CParen r2) (xs, r3) ->
+  is_rp t = false -> ES (fun f => rd_star f false (t :: ts)) (x, TComma :: r2) ->
+  ES (fun f => rd_elts f false CParen r2) (xs, r3) ->
   ES (fun f => rd_atom f (TLP :: t :: ts)) (ETuple (x :: xs), r3).
 Proof.
   intros Ht [n1 H1] [n2 H2]. exists (S (n1 + n2)). intros f Hf. destruct f as [|f]; [lia|].
@@ -217,7 +217,7 @@ Proof.
 Qed.
 
 Lemma ES_atom_list r xs r2 :
-  ES (fun f => rd_elts f CBracket r) (xs, r2) -> ES (fun f => rd_atom f (TLB :: r)) (EList xs, r2).
+  ES (fun f => rd_elts f false CBracket r) (xs, r2) -> ES (fun f => rd_atom f (TLB :: r)) (EList xs, r2).
 Proof.
   intros [n1 H1]. exists (S n1). intros f Hf. destruct f as [|f]; [lia|]. cbn. rewrite H1 by lia. reflexivity.
 Qed.
@@ -234,7 +234,7 @@ Qed.
 
 Lemma ES_atom_dict_one t ts k r2 v r3 :
   primary_head t = true ->
-  ES (fun f => rd_star f (t :: ts)) (k, TColon :: r2) -> is_starred k = false ->
+  ES (fun f => rd_star f false (t :: ts)) (k, TColon :: r2) -> is_starred k = false ->
   ES (fun f => rd f L_test r2) (v, TRC :: r3) ->
   ES (fun f => rd_atom f (TLC :: t :: ts)) (EDict [(Some k, v)], r3).
 Proof.
@@ -245,7 +245,7 @@ Qed.
 
 Lemma ES_atom_dict_more t ts k r2 v r3 items r4 :
   primary_head t = true ->
-  ES (fun f => rd_star f (t :: ts)) (k, TColon :: r2) -> is_starred k = false ->
+  ES (fun f => rd_star f false (t :: ts)) (k, TColon :: r2) -> is_starred k = false ->
   ES (fun f => rd f L_test r2) (v, TComma :: r3) ->
   ES (fun f => rd_dict f r3) (items, r4) ->
   ES (fun f => rd_atom f (TLC :: t :: ts)) (EDict ((Some k, v) :: items), r4).
@@ -258,35 +258,35 @@ Qed.
 (* ---- starred items, element lists ---- *)
 Definition is_star_tok (t : token) : bool := match t with TOp OStar => true | _ => false end.
 
-Lemma ES_star_plain t ts r0 :
-  is_star_tok t = false -> ES (fun f => rd f L_test (t :: ts)) r0 -> ES (fun f => rd_star f (t :: ts)) r0.
+Lemma ES_star_plain sl t ts r0 :
+  is_star_tok t = false -> ES (fun f => rd f L_test (t :: ts)) r0 -> ES (fun f => rd_star f sl (t :: ts)) r0.
 Proof.
   intros Ht [n1 H1]. exists (S n1). intros f Hf. destruct f as [|f]; [lia|].
   specialize (H1 f ltac:(lia)).
   destruct t; try (cbn; exact H1). destruct o; try (cbn; exact H1). discriminate.
 Qed.
 
-Lemma ES_star_starred r x r' :
-  ES (fun f => rd f L_bitor r) (x, r') -> ES (fun f => rd_star f (TOp OStar :: r)) (EStarred x, r').
+Lemma ES_star_starred (sl : bool) r x r' :
+  ES (fun f => rd f (if sl then L_test else L_bitor) r) (x, r') -> ES (fun f => rd_star f sl (TOp OStar :: r)) (EStarred x, r').
 Proof.
   intros [n1 H1]. exists (S n1). intros f Hf. destruct f as [|f]; [lia|]. cbn. rewrite H1 by lia. reflexivity.
 Qed.
 
-Lemma ES_elts_nil c t r : closes c t = true -> ES (fun f => rd_elts f c (t :: r)) ([], r).
+Lemma ES_elts_nil sl c t r : closes c t = true -> ES (fun f => rd_elts f sl c (t :: r)) ([], r).
 Proof. intros H. exists 1. intros f Hf. destruct f; [lia|]. cbn. rewrite H. reflexivity. Qed.
 
-Lemma ES_elts_last c t ts x t2 r2 :
-  closes c t = false -> ES (fun f => rd_star f (t :: ts)) (x, t2 :: r2) -> closes c t2 = true ->
-  ES (fun f => rd_elts f c (t :: ts)) ([x], r2).
+Lemma ES_elts_last sl c t ts x t2 r2 :
+  closes c t = false -> ES (fun f => rd_star f sl (t :: ts)) (x, t2 :: r2) -> closes c t2 = true ->
+  ES (fun f => rd_elts f sl c (t :: ts)) ([x], r2).
 Proof.
   intros Ht [n1 H1] H2. exists (S n1). intros f Hf. destruct f as [|f]; [lia|]. cbn.
   rewrite Ht. rewrite H1 by lia. rewrite H2. reflexivity.
 Qed.
 
-Lemma ES_elts_cons c t ts x r2 xs r3 :
-  closes c t = false -> ES (fun f => rd_star f (t :: ts)) (x, TComma :: r2) ->
-  ES (fun f => rd_elts f c r2) (xs, r3) ->
-  ES (fun f => rd_elts f c (t :: ts)) (x :: xs, r3).
+Lemma ES_elts_cons sl c t ts x r2 xs r3 :
+  closes c t = false -> ES (fun f => rd_star f sl (t :: ts)) (x, TComma :: r2) ->
+  ES (fun f => rd_elts f sl c r2) (xs, r3) ->
+  ES (fun f => rd_elts f sl c (t :: ts)) (x :: xs, r3).
 Proof.
   intros Ht [n1 H1] [n2 H2]. exists (S (n1 + n2)). intros f Hf. destruct f as [|f]; [lia|]. cbn.
   rewrite Ht. rewrite H1 by lia.
